@@ -78,6 +78,8 @@ def make_adapter(script):
             if isinstance(body, str):
                 body = body.encode('utf-8')
             self.sent.append((body, list(request.headers.items())))
+            if not self.script:
+                raise requests.exceptions.ConnectionError('scripted responses exhausted')
             step = self.script.pop(0)
             if 'raise' in step:
                 raise getattr(requests.exceptions, step['raise'])('scripted ' + step['raise'])
